@@ -278,6 +278,21 @@ CLAIMED["C12"] = (
     "DESIGN.md section 6 C12",
 )
 
+CLAIMED["C17"] = (
+    "Upwind.discretize is executed on symbolic face fluxes; its own sign tests fork the paths, so every sign "
+    "pattern of the fluxes is a path, for enumerated Dirichlet/Neumann assignments of the boundary faces and 1-2 "
+    "components. Per path the upwind, Dirichlet-inflow and Neumann matrices are compared with an independent "
+    "oracle built from the cell-face signs (upstream cell on interior and outflow faces, no cell on Neumann and "
+    "Dirichlet-inflow faces, boundary data only there, Kronecker expansion per component). For the transport "
+    "clause z3 decides, for all divergence-free interior fluxes, volumes, concentrations and time steps below "
+    "the CFL limit on a closed 2x2 grid, that an explicit step conserves the total amount and keeps every cell "
+    "value within the initial bounds.",
+    "Floats as exact reals; grids: 3-cell line, 2x1 and 2x2 Cartesian; non-zero fluxes for the selection clause; "
+    "boundary assignments enumerated (4-7 per grid).",
+    "symbolic execution of Upwind.discretize on z3 terms (sign forks) + SMT",
+    "DESIGN.md section 6 C17",
+)
+
 NOT_APPLICABLE = {
     "C11": "MPFA local systems are inverted in LAPACK/numba kernels on data-dependent block structures; a symbolic inverse of the interaction-region blocks is beyond z3/cvc5 and with concrete matrices nothing quantified remains for a solver.",
     "C13": "MPSA: same obstacle as C11 with 2-3x larger local systems.",
